@@ -74,6 +74,17 @@ fn main() {
                 let ord: u32 = args[d + 2].parse().unwrap();
                 sc.faults.push(Fault { from: dir, to: 1 - dir, ordinal: ord, kind: FaultKind::Drop });
             }
+            if args.iter().any(|a| a == "nofin") {
+                sc.blackouts.push(Blackout::of_kinds(1, 0, &[Kind::Finished]));
+                sc.horizon_ms = 400_000;
+            }
+            if args.iter().any(|a| a == "health") {
+                sc.health_check = true;
+            }
+            if let Some(d) = args.iter().position(|a| a == "dump") {
+                let body = serde_json::json!({"property": args[d + 1], "part": args[d + 2], "case": {"sc": sc}});
+                std::fs::write(&args[d + 3], serde_json::to_string_pretty(&body).unwrap()).unwrap();
+            }
             let t = std::time::Instant::now();
             let tr = run_scenario(&sc);
             println!("{}", tr.render(400));
